@@ -320,7 +320,7 @@ func (e *GasEnv) calibrate(plans [][]*gasCall, slots []int) error {
 // GasScheduleChange / EpochConfirmed visit the functions one after the other inside their call interval, so the
 // recorded history is correct iff every per-function history is.
 func (e *GasEnv) GasRound(r *rand.Rand, no *int) ([]*Round, error) {
-	nexec := 1 + r.Intn(14)
+	nexec := 1 + r.Intn(MaxG-2)
 	if r.Intn(3) == 0 {
 		nexec = 1 + r.Intn(3)
 	}
